@@ -34,7 +34,8 @@ def apply_variant(v, root=None):
 
 
 def parse_patch(text):
-    """{relpath: [(old_lines, new_lines)]} of a unified diff (git diff)"""
+    """{relpath: [(start_line, old_lines, new_lines)]} of a unified diff"""
+    import re
     files = {}
     cur = None
     hunk = None
@@ -48,23 +49,25 @@ def parse_patch(text):
                 line.startswith('index '):
             continue
         elif line.startswith('@@'):
-            hunk = ([], [])
+            m = re.match(r'@@ -(\d+)', line)
+            hunk = (int(m.group(1)) if m else 1, [], [])
             if cur is not None:
                 files[cur].append(hunk)
         elif hunk is not None:
             if line.startswith('+'):
-                hunk[1].append(line[1:])
+                hunk[2].append(line[1:])
             elif line.startswith('-'):
-                hunk[0].append(line[1:])
-            elif line.startswith(' ') or line == '':
-                hunk[0].append(line[1:])
                 hunk[1].append(line[1:])
+            elif line.startswith(' ') or line == '':
+                hunk[1].append(line[1:])
+                hunk[2].append(line[1:])
     return files
 
 
 def apply_patch(text, root=None):
     """overlay {relpath: new source} or None if a hunk does not apply to
-    the current tree (stale seed)"""
+    the current tree (stale seed).  A hunk whose old text occurs several
+    times is applied at the occurrence nearest to its recorded line."""
     root = root or model.REPO
     overlay = {}
     for rel, hunks in parse_patch(text).items():
@@ -73,12 +76,25 @@ def apply_patch(text, root=None):
                 src = f.read()
         except OSError:
             return None
-        for old, new in hunks:
+        shift = 0
+        for start, old, new in hunks:
             o = '\n'.join(old) + '\n'
             n = '\n'.join(new) + '\n'
-            if src.count(o) != 1:
+            pos = []
+            k = src.find(o)
+            while k != -1:
+                if k == 0 or src[k - 1] == '\n':
+                    pos.append(k)
+                k = src.find(o, k + 1)
+            if not pos:
                 return None
-            src = src.replace(o, n)
+            want = start + shift
+
+            def lineno(off):
+                return src.count('\n', 0, off) + 1
+            best = min(pos, key=lambda off: abs(lineno(off) - want))
+            src = src[:best] + n + src[best + len(o):]
+            shift += len(new) - len(old)
         overlay[rel] = src
     return overlay
 
